@@ -144,7 +144,8 @@ Definition cstep (c : cconn) (o : cop) : cconn * cret :=
       end
   | KReject =>
       let '(conn1, err) := c_reset (cc_conn c) in
-      (mkCC (cc_client c) (cc_pp c) false conn1 [] 0 0 0, [b2z err])
+      (* a failing Reset (stream data was read during 0-RTT) closes the connection *)
+      if err then (c, [1]) else (mkCC (cc_client c) (cc_pp c) false conn1 [] 0 0 0, [0])
   | KOpen kind =>
       match cc_pp c with
       | None => (c, [0; -1])
